@@ -18,7 +18,8 @@ REPO_CFLAGS_COMMON := -std=gnu99 -g -fno-omit-frame-pointer -U_FORTIFY_SOURCE -D
 
 # ---------------------------------------------------------------- net engine (C18, C19)
 NET_SAN := -fsanitize=address,bounds,integer-divide-by-zero -fno-sanitize-recover=all
-NET_REPO_CFLAGS := $(REPO_CFLAGS_COMMON) -O1 -fno-inline $(NET_SAN) $(COV) -I$(EX)
+# the optimised variants are built like a Release build (-DNDEBUG: assert() vanishes, with whatever it contained); the -O0 variants keep assert()
+NET_REPO_CFLAGS := $(REPO_CFLAGS_COMMON) -O1 -DNDEBUG -fno-inline $(NET_SAN) $(COV) -I$(EX)
 NETB := $(B)/net
 NET_LIB_OBJS := $(patsubst $(REPO)/src/%.c,$(NETB)/lib/%.o,$(LIB_SRCS))
 NET_WRAPS := socket bind ioctl setsockopt close recv sendto read write poll clock_gettime clock_nanosleep sleep timerfd_create timerfd_settime rand exit malloc calloc realloc free
@@ -77,8 +78,8 @@ net: $(B)/net_sim
 # ---------------------------------------------------------------- call bindings generated from /repo/include
 GEN := $(B)/gen
 FORMATS := $(shell awk '$$1=="format"{print $$2}' spec/fields.def)
-BIND_SRCS := $(patsubst %,$(GEN)/bind_%.c,$(FORMATS)) $(GEN)/bind_all.c
-$(GEN)/stamp: tools/gen_bindings.py spec/fields.def $(REPO_HDRS) Makefile | dirs
+BIND_SRCS := $(patsubst %,$(GEN)/bind_%.c,$(FORMATS)) $(GEN)/bind_all.c $(GEN)/bind_extra.c
+$(GEN)/stamp: tools/gen_bindings.py spec/fields.def bindings/baseline_api.txt $(REPO_HDRS) Makefile | dirs
 	@mkdir -p $(GEN)
 	python3 tools/gen_bindings.py $(REPO)/include spec/fields.def $(GEN) 2>$(GEN)/gen.log
 	@touch $@
@@ -95,7 +96,7 @@ REC_SIM_OBJS := $(patsubst %.cc,$(RECB)/sim/%.o,$(REC_SIM_SRCS))
 $(RECB)/sim/%.o: %.cc $(wildcard sim/*.h spec/*.h bindings/*.h engines/reent/drivers.h) Makefile | dirs
 	@mkdir -p $(dir $@)
 	$(CXX) $(SIM_CXXFLAGS) -fsanitize=address -c $< -o $@
-REC_DRV_OBJS := $(B)/reent/drv_can.o $(B)/reent/drv_canbrief.o
+REC_DRV_OBJS := $(B)/reent/drv_can.o $(B)/reent/drv_canbrief.o $(B)/reent/drv_vss.o
 $(B)/rec_sim: $(NETB)/marker_begin.o $(NET_LIB_OBJS) $(NETB)/marker_end.o $(REC_BIND_OBJS) $(REC_DRV_OBJS) $(REC_SIM_OBJS)
 	$(CXX) -no-pie -fsanitize=address,bounds,integer-divide-by-zero -o $@ $(NETB)/marker_begin.o $(NET_LIB_OBJS) $(NETB)/marker_end.o $(REC_BIND_OBJS) $(REC_DRV_OBJS) $(REC_SIM_OBJS) -lm
 rec: $(B)/rec_sim
@@ -136,7 +137,7 @@ reent: $(B)/reent_sim
 # is invisible to a clang-only build. reentg_sim / recg_sim run the same engines against the library and the bindings compiled by gcc -O2.
 GCC := gcc
 GLIBB := $(B)/glib
-GCC_REPO_CFLAGS := -std=gnu99 -O2 -g -fno-omit-frame-pointer -fno-common -U_FORTIFY_SOURCE -D_FORTIFY_SOURCE=0 -I$(REPO)/include -w
+GCC_REPO_CFLAGS := -std=gnu99 -O2 -DNDEBUG -g -fno-omit-frame-pointer -fno-common -U_FORTIFY_SOURCE -D_FORTIFY_SOURCE=0 -I$(REPO)/include -w
 GCC_LIB_OBJS := $(patsubst $(REPO)/src/%.c,$(GLIBB)/lib/%.o,$(LIB_SRCS))
 $(GLIBB)/lib/%.o: $(REPO)/src/%.c $(REPO_HDRS) Makefile $(B)/repo_config.mk | dirs
 	@mkdir -p $(dir $@)
@@ -160,8 +161,8 @@ RECG_SIM_OBJS := $(patsubst %.cc,$(GLIBB)/rec/%.o,$(REC_SIM_SRCS))
 $(GLIBB)/rec/%.o: %.cc $(wildcard sim/*.h spec/*.h bindings/*.h) Makefile | dirs
 	@mkdir -p $(dir $@)
 	$(CXX) $(SIM_CXXFLAGS) -fsanitize=address -DREC_VARIANT_GCC=1 -c $< -o $@
-$(B)/recg_sim: $(NETB)/marker_begin.o $(GCC_LIB_OBJS) $(NETB)/marker_end.o $(GCC_BIND_OBJS) $(GLIBB)/drv_can.o $(GLIBB)/drv_canbrief.o $(RECG_SIM_OBJS)
-	$(CXX) -no-pie -fsanitize=address -o $@ $(NETB)/marker_begin.o $(GCC_LIB_OBJS) $(NETB)/marker_end.o $(GCC_BIND_OBJS) $(GLIBB)/drv_can.o $(GLIBB)/drv_canbrief.o $(RECG_SIM_OBJS) -lm
+$(B)/recg_sim: $(NETB)/marker_begin.o $(GCC_LIB_OBJS) $(NETB)/marker_end.o $(GCC_BIND_OBJS) $(GLIBB)/drv_can.o $(GLIBB)/drv_canbrief.o $(GLIBB)/drv_vss.o $(RECG_SIM_OBJS)
+	$(CXX) -no-pie -fsanitize=address -o $@ $(NETB)/marker_begin.o $(GCC_LIB_OBJS) $(NETB)/marker_end.o $(GCC_BIND_OBJS) $(GLIBB)/drv_can.o $(GLIBB)/drv_canbrief.o $(GLIBB)/drv_vss.o $(RECG_SIM_OBJS) -lm
 rec: $(B)/recg_sim
 
 # ---------------------------------------------------------------- third build for C05: no optimisation at all (what the repository's CMake does when no build type is given)
@@ -182,8 +183,8 @@ REC0_SIM_OBJS := $(patsubst %.cc,$(G0B)/rec/%.o,$(REC_SIM_SRCS))
 $(G0B)/rec/%.o: %.cc $(wildcard sim/*.h spec/*.h bindings/*.h engines/reent/drivers.h) Makefile | dirs
 	@mkdir -p $(dir $@)
 	$(CXX) $(SIM_CXXFLAGS) -fsanitize=address -DREC_VARIANT_O0=1 -c $< -o $@
-$(B)/reco_sim: $(NETB)/marker_begin.o $(G0_LIB_OBJS) $(NETB)/marker_end.o $(G0_BIND_OBJS) $(G0B)/drv_can.o $(G0B)/drv_canbrief.o $(REC0_SIM_OBJS)
-	$(CXX) -no-pie -fsanitize=address -o $@ $(NETB)/marker_begin.o $(G0_LIB_OBJS) $(NETB)/marker_end.o $(G0_BIND_OBJS) $(G0B)/drv_can.o $(G0B)/drv_canbrief.o $(REC0_SIM_OBJS) -lm
+$(B)/reco_sim: $(NETB)/marker_begin.o $(G0_LIB_OBJS) $(NETB)/marker_end.o $(G0_BIND_OBJS) $(G0B)/drv_can.o $(G0B)/drv_canbrief.o $(G0B)/drv_vss.o $(REC0_SIM_OBJS)
+	$(CXX) -no-pie -fsanitize=address -o $@ $(NETB)/marker_begin.o $(G0_LIB_OBJS) $(NETB)/marker_end.o $(G0_BIND_OBJS) $(G0B)/drv_can.o $(G0B)/drv_canbrief.o $(G0B)/drv_vss.o $(REC0_SIM_OBJS) -lm
 rec: $(B)/reco_sim
 
 dirs:
